@@ -219,4 +219,358 @@ theorem evalKw_lookup (ord : List String → Nat) (w : World) (ns : Ns) (hw : ga
         simp only [hkk'] at hke ⊢
         exact hl k e hke hb
 
+/-! ### a call that matches a signature is mapped -/
+
+theorem evalCallX_isSome_of_any (re : RandEnv) (env : GraphEnv) (g : SimpleG) (ns : Ns) (c : Call)
+    (h : (evalCallAny env g ns c).isSome = true) : (evalCallX re env g ns c).isSome = true := by
+  unfold evalCallX
+  cases ha : evalCallAny env g ns c with
+  | none => rw [ha] at h; simp at h
+  | some b => rfl
+
+theorem evalCallX_isSome_of_R (re : RandEnv) (env : GraphEnv) (g : SimpleG) (ns : Ns) (c : Call)
+    (h : (evalCallR re env ns c).isSome = true) : (evalCallX re env g ns c).isSome = true := by
+  unfold evalCallX
+  cases ha : evalCallAny env g ns c with
+  | none => exact h
+  | some b => rfl
+
+theorem kwBool_of_lookup (c : Call) (k : String) (b : Bool) (h : c.kw.lookup k = some (.bool b)) :
+    kwBool c k = some b := by
+  unfold kwBool; rw [h]
+
+theorem sig_mapped (re : RandEnv) (env : GraphEnv) (g : SimpleG) (ns : Ns) (sg : Sig) (hsg : sg ∈ sigs) (c : Call)
+    (hfn : c.fn = sg.fn) (hpos : holdsL sg.pos c.pos)
+    (hkw : ∀ k ∈ sg.kws, ∃ b, c.kw.lookup k = some (.bool b))
+    (hints : ∀ d ∈ sg.ints, ∃ i, ns.lookup d = some (.int i)) :
+    (evalCallX re env g ns c).isSome = true := by
+  obtain ⟨fn, pos, kw⟩ := c
+  simp only [sigs, List.mem_cons, List.not_mem_nil, or_false] at hsg
+  rcases hsg with rfl | rfl | rfl | rfl | rfl | rfl | rfl
+  · -- GraphOrderingPrinciple
+    dsimp only at hfn hpos; subst hfn
+    match pos, hpos with
+    | [_, _, _, _, _], ⟨⟨t, rfl⟩, ⟨b1, rfl⟩, ⟨b2, rfl⟩, ⟨b3, rfl⟩, hk, _⟩ =>
+      apply evalCallX_isSome_of_any
+      rcases hk with rfl | ⟨i, rfl⟩ <;>
+        simp [evalCallAny, evalCallG, gHandlers, List.lookup, gGraphOrdering, knuthOf]
+  · -- OrderingPrinciple
+    dsimp only at hfn hpos; subst hfn
+    match pos, hpos with
+    | [_, _, _, _, _], ⟨⟨n, rfl⟩, ⟨b1, rfl⟩, ⟨b2, rfl⟩, ⟨b3, rfl⟩, hk, _⟩ =>
+      apply evalCallX_isSome_of_any
+      rcases hk with rfl | ⟨i, rfl⟩ <;>
+        simp [evalCallAny, evalCallG, gHandlers, List.lookup, evalCallF]
+  · -- TseitinFormula
+    dsimp only at hfn hpos; subst hfn
+    match pos, hpos with
+    | [_, _], ⟨⟨t, rfl⟩, _, _⟩ =>
+      apply evalCallX_isSome_of_R
+      simp [evalCallR]
+  · -- GraphPigeonholePrinciple(B)
+    dsimp only at hfn hpos hkw; subst hfn
+    obtain ⟨f, hf⟩ := hkw "functional" (by simp)
+    obtain ⟨o, ho⟩ := hkw "onto" (by simp)
+    match pos, hpos with
+    | [_], ⟨⟨t, rfl⟩, _⟩ =>
+      apply evalCallX_isSome_of_any
+      simp [evalCallAny, evalCallG, gHandlers, List.lookup, gGraphPhp, kwBool, hf, ho]
+  · -- GraphPigeonholePrinciple(bipartite_random_left_regular(…))
+    dsimp only at hfn hpos hkw hints; subst hfn
+    obtain ⟨f, hf⟩ := hkw "functional" (by simp)
+    obtain ⟨o, ho⟩ := hkw "onto" (by simp)
+    obtain ⟨p, hp⟩ := hints "pigeons" (by simp)
+    obtain ⟨h, hh⟩ := hints "holes" (by simp)
+    obtain ⟨d, hd⟩ := hints "degree" (by simp)
+    match pos, hpos with
+    | [_], ⟨⟨src, rfl⟩, _⟩ =>
+      apply evalCallX_isSome_of_R
+      simp [evalCallR, kwBool, hf, ho, hp, hh, hd]
+  · -- PigeonholePrinciple
+    dsimp only at hfn hpos hkw; subst hfn
+    obtain ⟨f, hf⟩ := hkw "functional" (by simp)
+    obtain ⟨o, ho⟩ := hkw "onto" (by simp)
+    match pos, hpos with
+    | [_, _], ⟨⟨m, rfl⟩, ⟨n, rfl⟩, _⟩ =>
+      apply evalCallX_isSome_of_any
+      simp [evalCallAny, evalCallG, gHandlers, List.lookup, evalCallF, kwBool, hf, ho]
+  · -- SubsetCardinalityFormula
+    dsimp only at hfn hpos; subst hfn
+    match pos, hpos with
+    | [_, _], ⟨⟨t, rfl⟩, ⟨b, rfl⟩, _⟩ =>
+      apply evalCallX_isSome_of_R
+      simp [evalCallR]
+
+/-- what a path that `callOK` accepts does: a shielded exception, or a call `evalCallX` answers on -/
+def PathOK (re : RandEnv) (env : GraphEnv) (g : SimpleG) (ord : List String → Nat) (ns : Ns) (t : CallTemplate) : Prop :=
+  instantiate ns (fixTemplate ord ns t) = .error .cliError ∨
+  ∃ c, instantiate ns (fixTemplate ord ns t) = .ok c ∧ (evalCallX re env g ns c).isSome = true
+
+theorem callOK_sound (re : RandEnv) (env : GraphEnv) (g : SimpleG) (ord : List String → Nat) (s : CliSpec)
+    (ns : Ns) (hk : GKns s ns) (w : World) (t : CallTemplate) (hw : gamW w ns) (h : callOK s w t = true) :
+    PathOK re env g ord ns t := by
+  unfold callOK at h
+  unfold PathOK instantiate fixTemplate
+  dsimp only
+  by_cases hr : (t.raises != "") = true
+  · simp only [hr, if_true] at h ⊢
+    left; simp [h]
+  · have hr' : (t.raises != "") = false := by simpa using hr
+    simp only [hr', Bool.false_eq_true, if_false] at h ⊢
+    obtain ⟨sg, hsg, hok⟩ := List.any_eq_true.1 h
+    unfold sigOK at hok
+    simp only [Bool.and_eq_true, beq_iff_eq] at hok
+    obtain ⟨⟨⟨⟨hfn, hpos⟩, hkwall⟩, hkws⟩, hints⟩ := hok
+    have hfne : (t.fn == "") = false := by
+      rw [← hfn]
+      simp only [sigs, List.mem_cons, List.not_mem_nil, or_false] at hsg
+      rcases hsg with rfl | rfl | rfl | rfl | rfl | rfl | rfl <;> decide
+    simp only [hfne, Bool.false_eq_true, if_false]
+    obtain ⟨vs, hvs, hh⟩ := posSorts_sound ord s w ns hw hk t.pos sg.pos hpos
+    obtain ⟨ks, hks, hkl⟩ := evalKw_lookup ord w ns hw t.kw hkwall
+    right
+    rw [hvs, hks]
+    refine ⟨_, rfl, sig_mapped re env g ns sg hsg _ hfn.symm hh ?_ ?_⟩
+    · intro k hkm
+      have := (List.all_eq_true.1 hkws) k hkm
+      cases hl : t.kw.lookup k with
+      | none => rw [hl] at this; simp at this
+      | some e => rw [hl] at this; exact hkl k e hl this
+    · intro d hd
+      have := (List.all_eq_true.1 hints) d hd
+      cases hl : w.lookup d with
+      | none => rw [hl] at this; simp at this
+      | some a =>
+        rw [hl] at this
+        obtain ⟨v, hv, hg⟩ := gamW_some w ns hw d a hl
+        obtain ⟨i, rfl⟩ := isIntLike_val a v this hg
+        exact ⟨i, hv⟩
+
+/-! ### the graphs of the namespace have the kind of their option (an engine invariant) -/
+
+theorem constVal_not_graph (e : Expr) (k : String) (t : List String) : constVal e ≠ .graph k t := by
+  cases e <;> simp [constVal]
+
+theorem flagVal_not_graph (o : OptSpec) (k : String) (t : List String) : o.flagVal ≠ .graph k t := by
+  unfold OptSpec.flagVal
+  split
+  · simp
+  · split
+    · simp
+    · exact constVal_not_graph _ _ _
+
+theorem defaultVal_not_graph (o : OptSpec) (k : String) (t : List String) : o.defaultVal ≠ .graph k t := by
+  unfold OptSpec.defaultVal
+  split
+  · exact constVal_not_graph _ _ _
+  · split
+    · simp
+    · split <;> simp
+
+/-- the binding of a sub-parser's positional: a graph has the kind of the positional's action -/
+theorem bindBase_kind (s : CliSpec) (o : OptSpec) (hm : o ∈ s.opts ++ phpInner.poss) (h : subOptOK o = true)
+    (toks : List String) (b : Ns) (hb : bindBase o toks = .ok b) : ∀ q ∈ b, GKq s q := by
+  obtain ⟨h1, h2, h3⟩ := subOptOK_parts o h
+  by_cases har : o.arity = .plus
+  · unfold bindBase at hb
+    simp only [h3, Bool.false_eq_true, if_false, har] at hb
+    split at hb
+    · simp at *
+    · split at hb
+      · rename_i k hk
+        simp at hb; subst hb
+        intro q hq; simp at hq; subst hq
+        intro k' t hv
+        simp at hv
+        exact ⟨o, hm, rfl, by rw [hk, hv.1]⟩
+      · simp at hb
+    · have hbo := liftE_ok _ _ hb
+      unfold bindOne at hbo
+      simp only [h1, h2, Bool.false_eq_true, if_false, har] at hbo
+      split at hbo
+      · simp at hbo; subst hbo
+        intro q hq; simp at hq; subst hq
+        intro k' t hv
+        simp at hv
+        refine ⟨o, hm, rfl, ?_⟩
+        rw [← hv.1]; assumption
+      · simp at hbo
+  · obtain ⟨v, rfl, hv⟩ := bindBase_sub o h toks b hb
+    intro q hq; simp at hq; subst hq
+    intro k t hvk
+    dsimp only at hvk
+    subst hvk
+    exfalso
+    rcases hv with hv | ⟨hv, _⟩
+    · unfold subOptOK at h
+      simp only [Bool.and_eq_true] at h
+      have hk := h.2
+      unfold subAV at hv
+      cases ha : o.arity with
+      | plus => exact har ha
+      | one =>
+        rw [ha] at hv hk
+        dsimp only at hv hk
+        split at hv
+        · simp [gam] at hv
+        · split at hv
+          · simp [gam] at hv
+          · rename_i h4 h5
+            simp only [Bool.or_eq_true, bne_iff_ne, ne_eq, Bool.not_eq_true'] at hk
+            rcases hk with hk | hk
+            · simp [hk] at h4
+            · simp [hk] at h5
+      | opt =>
+        rw [ha] at hv hk
+        dsimp only at hv hk
+        split at hv
+        · split at hv
+          · simp [gam] at hv
+          · simp [gam] at hv
+          · rename_i h5 h6
+            simp only [Bool.and_eq_true] at hk
+            have := hk.2
+            simp at this
+        · rename_i h4
+          simp only [Bool.and_eq_true, bne_iff_ne, ne_eq] at hk
+          simp [hk.1] at h4
+      | zero => rw [ha] at hk; simp at hk
+      | star => rw [ha] at hk; simp at hk
+      | other => rw [ha] at hk; simp at hk
+    · cases hv
+
+/-- a sub-parser's run keeps the invariant -/
+theorem subEngine_kind (s : CliSpec) (subps : List OptSpec) (hmem : ∀ o ∈ subps, o ∈ s.opts ++ phpInner.poss)
+    (hok : ∀ o ∈ subps, subOptOK o = true) (toks : List String) (b : Ns)
+    (h : engine bindBase ⟨[], subps⟩ toks = .ok b) : ∀ q ∈ b, GKq s q := by
+  have hK : EngInv bindBase (fun _ => False) (fun o => o ∈ subps) (fun _ ns => ∀ q ∈ ns, GKq s q) := by
+    refine ⟨fun o toks b' ps ns hf _ _ => absurd hf id, ?_⟩
+    intro o toks' b' ps ns ho hb hk q hq
+    rcases List.mem_append.1 hq with hq | hq
+    · exact bindBase_kind s o (hmem o ho) (hok o ho) toks' b' hb q hq
+    · exact hk q hq
+  exact engine_inv hK ⟨[], subps⟩ (by intro o ho; simp at ho) (by intro o ho; simp at ho) (fun o ho => ho)
+    toks b (by intro q hq; simp at hq) h
+
+theorem phpArgs_kind (s : CliSpec) (toks : List String) (b : Ns) (h : phpArgs toks = .ok b) : ∀ q ∈ b, GKq s q := by
+  have hB : ∀ tk, GKq s ("B", Val.graph "bipartite" tk) := by
+    intro tk k t hv
+    simp at hv
+    refine ⟨phpInner.poss.head (by simp [phpInner]), List.mem_append_right _ (by simp [phpInner]), by simp [phpInner], ?_⟩
+    rw [← hv.1]; decide
+  unfold phpArgs at h
+  repeat' split at h
+  all_goals first
+    | (simp at h; done)
+    | (simp at h; subst h; intro q hq; simp at hq; subst hq; exact hB _)
+    | (simp at h; subst h; intro q hq; simp at hq
+       rcases hq with rfl | rfl | rfl <;> (intro k t hv; simp at hv))
+
+/-- what the custom action of `php` / a composed sub-command binds keeps the invariant -/
+theorem special_kind (s : CliSpec) (htab : worldTablesOK s = true) (sp : OptSpec) (hsp : specialOpts s = [sp])
+    (toks : List String) (b : Ns) (hb : mainBind s sp toks = .ok b) : ∀ q ∈ b, GKq s q := by
+  unfold worldTablesOK at htab
+  simp only [Bool.and_eq_true] at htab
+  obtain ⟨_, h7⟩ := htab
+  have hspm : sp ∈ specialOpts s := by rw [hsp]; simp
+  by_cases hphp : (s.cls == "PHPCmdHelper") = true
+  · simp only [hphp, if_true] at h7
+    have hact : sp.action = "PHPArgs" := by simpa using (List.all_eq_true.1 h7) sp hspm
+    unfold mainBind at hb
+    simp only [hact, beq_self_eq_true, if_true] at hb
+    unfold phpArgsX at hb
+    cases toks with
+    | nil => simp at hb
+    | cons t r =>
+      dsimp only at hb
+      split at hb
+      · exact subEngine_kind s phpInner.poss (fun o ho => List.mem_append_right _ ho)
+          (fun o ho => (phpInner_facts o ho).1) (t :: r) b (by simpa [phpInner] using hb)
+      · exact phpArgs_kind s (t :: r) b (liftE_ok _ _ hb)
+  · have hphp' : (s.cls == "PHPCmdHelper") = false := by simpa using hphp
+    simp only [hphp', Bool.false_eq_true, if_false] at h7
+    have := (List.all_eq_true.1 h7) sp hspm
+    simp only [Bool.and_eq_true, beq_iff_eq, List.all_eq_true, decide_eq_true_eq] at this
+    obtain ⟨⟨⟨hact, hlen⟩, hsub⟩, _⟩ := this
+    unfold mainBind at hb
+    have hnp : (sp.action == "PHPArgs") = false := by rw [hact]; decide
+    simp only [hnp, Bool.false_eq_true, if_false] at hb
+    simp only [hact, beq_self_eq_true, if_true] at hb
+    unfold composeX at hb
+    split at hb
+    · rename_i p1 p2 t r hc
+      have hp : (if pyFloatOk t = true then p1 else p2) ∈ sp.compose := by
+        rw [hc]; split <;> simp
+      have := hsub _ hp
+      exact subEngine_kind s _ (fun o ho => List.mem_append_left _ (by
+          unfold subPositionals at ho; exact (List.mem_filter.1 ho).1))
+        (fun o ho => this.1 o ho) _ b hb
+    · simp at hb
+    · simp at hb
+
+/-- THE KIND INVARIANT: after the extended parser of `php` / a composed sub-command, every graph of the namespace has
+the kind of an option that stores under its dest -/
+theorem parseX_kind (s : CliSpec) (htab : worldTablesOK s = true) (sp : OptSpec) (ht : WorldTables s sp)
+    (argv : List String) (b : Ns) (hp : parseX s argv = .ok b) : GKns s (namespaceOf s b) := by
+  have hK : EngInv (mainBind s) (fun o => o ∈ flagOpts s) (fun o => o = sp)
+      (fun _ ns => ∀ q ∈ ns, GKq s q) := by
+    refine ⟨?_, ?_⟩
+    · intro o toks b' ps ns ho hb hk q hq
+      have hb' := flag_bind s sp ht o ho toks b' hb
+      subst hb'
+      rcases List.mem_append.1 hq with hq | hq
+      · simp at hq; subst hq
+        intro k t hv
+        exact absurd hv (flagVal_not_graph o k t)
+      · exact hk q hq
+    · intro o toks b' ps ns ho hb hk q hq
+      subst ho
+      rcases List.mem_append.1 hq with hq | hq
+      · exact special_kind s htab o ht.hsp toks b' hb q hq
+      · exact hk q hq
+  have hopts : ∀ o ∈ (mainSpec s).opts, o ∈ flagOpts s := by
+    intro o ho
+    unfold mainSpec at ho
+    simp only [List.mem_filter, Bool.not_eq_true'] at ho
+    unfold flagOpts
+    refine List.mem_filter.2 ⟨ho.1, ?_⟩
+    by_cases hsp' : isSpecial o = true
+    · exfalso
+      have : o ∈ specialOpts s := List.mem_filter.2 ⟨ho.1, hsp'⟩
+      rw [ht.hsp] at this
+      simp at this
+      subst this
+      have hpos : o ∈ positionals s := by rw [ht.hpos]; simp
+      unfold positionals at hpos
+      have := (List.mem_filter.1 hpos).2
+      rw [ho.2] at this
+      simp at this
+    · simpa using hsp'
+  have hb := engine_inv hK (mainSpec s)
+    (fun o ho => Or.inl (ht.hflag o (hopts o ho)).1) hopts
+    (fun o ho => by
+      have : (mainSpec s).poss = positionals s := rfl
+      rw [this, ht.hpos] at ho
+      simpa using ho)
+    argv b (by intro q hq; simp at hq) hp
+  intro d v hl
+  unfold namespaceOf at hl
+  rw [List.lookup_append] at hl
+  cases hbl : b.lookup d with
+  | some v' =>
+    rw [hbl] at hl
+    simp at hl; subst hl
+    exact hb _ (dtot_lookup_mem b d v' hbl)
+  | none =>
+    rw [hbl] at hl
+    simp only [Option.none_or] at hl
+    have hm := dtot_lookup_mem _ d v hl
+    unfold defaults at hm
+    obtain ⟨o, _, ho⟩ := List.mem_map.1 hm
+    simp at ho
+    intro k t hv
+    dsimp only at hv
+    rw [← ho.2] at hv
+    exact absurd hv (defaultVal_not_graph o k t)
+
 end Cnfgen.Cli
